@@ -1101,6 +1101,9 @@ fn samples(a: &Acc, s: Option<&Row>) -> Vec<String> {
         "Url" => vec![x("https://example.com/"), x("https://example.com/a/b?c=d"), x("https://example.com/projects/foo/")],
         "Vec<String>" => match sep {
             "comma" | "" => vec![l(&["Jo Doe <jo@x.org>"]), l(&["Jo Doe <jo@x.org>", "Al B <al@y.org>"]), l(&["a", "b", "c"])],
+            // written one per line but READ as a whitespace-separated list (Files-Excluded): the
+            // elements are free of the getter's separator
+            "nl" if a.getter == Some("files_excluded") => vec![l(&["debian/missing-sources"]), l(&["a", "c/*", "d"])],
             "nl" => vec![l(&["2019 John Doe"]), l(&["a b", "c/*", "d"])],
             _ => vec![l(&["amd64"]), l(&["amd64", "i386", "all"])],
         },
